@@ -21,6 +21,10 @@ def sdkRot (hw : Bool) (cls : String) (q n d : Int) : Option Instr :=
 def sdkMeasBasis (q m x1 y x2 : Int) : Instr :=
   ⟨"core.MeasBasisInstruction", [.reg ⟨2, q⟩, .reg ⟨3, m⟩, .imm x1, .imm y, .imm x2, .imm 4]⟩
 
+/-- `Builder._build_cmds_breakpoint(action, role)`: `action.value`, `role.value` become the two
+8-bit immediates; no check in the SDK -/
+def sdkBreakpoint (a r : Int) : Instr := ⟨"core.BreakpointInstruction", [.imm a, .imm r]⟩
+
 def encodeOptInstr (T : Table) : Option Instr → Option (List Nat)
   | some i => encodeInstr T i
   | none => none
